@@ -855,6 +855,7 @@ type walReplay struct {
 	Src   wState  `json:"src"`
 	Act   wAct    `json:"act"`
 	Dst   wState  `json:"dst"`
+	Diff  string  `json:"diff"`  // kind of the difference this replay file is about
 	Phase string  `json:"phase"` // after-op | after-restart
 	Real  *realObs `json:"real,omitempty"`
 }
@@ -896,6 +897,7 @@ func walPart(t *testing.T, in *walInput, res *verifkit.Result) {
 		if p, ok := firstOf[string(k)]; !ok || ti < p.ti {
 			c := *rp
 			c.Phase = phase
+			c.Diff = d.Kind
 			firstOf[string(k)] = &pending{ti, sig, c, fmt.Sprintf("%s %s (%s): %s", rp.Act.Op, actArgs(&rp.Act), phase, d.Text)}
 		}
 	}
@@ -938,6 +940,9 @@ func walPart(t *testing.T, in *walInput, res *verifkit.Result) {
 		go func() {
 			defer func() { <-sem; wg.Done() }()
 			// build the source state by replaying the path on an empty store
+			fk := fmt.Sprintf("walsrc:%d", s)
+			flight.begin(fk)
+			defer flight.end(fk)
 			base := newMapDB()
 			n, err := openNode(ww, &crashDB{inner: base, limit: -1})
 			if err != nil {
@@ -965,8 +970,11 @@ func walPart(t *testing.T, in *walInput, res *verifkit.Result) {
 				res.Note("source state %d not reproduced by its path (%d differences, first: %s)", s, len(ds), ds[0].Text)
 				return
 			}
-			for _, ti := range out[s] {
+			one := func(ti int) {
 				tr := &in.Transitions[ti]
+				key := fmt.Sprintf("wal:%d", ti)
+				flight.begin(key)
+				defer flight.end(key)
 				store := &crashDB{inner: base.clone(), limit: -1}
 				nd, err := openNode(ww, store)
 				if err != nil {
@@ -981,12 +989,12 @@ func walPart(t *testing.T, in *walInput, res *verifkit.Result) {
 				crashed, atoms, err := nd.exec(&act)
 				if err != nil {
 					report(ti, walDiff{"api-error", map[string]interface{}{"kind": "api-error"}, fmt.Sprintf("returned error %v", err)}, "after-op", rp)
-					continue
+					return
 				}
 				if act.Crash && !crashed {
 					report(ti, walDiff{"commit-structure", map[string]interface{}{"kind": "commit-structure"},
 						fmt.Sprintf("the operation completed with %d store commits, the model has %d (crash point %d never reached)", atoms, act.N, act.K)}, "after-op", rp)
-					continue
+					return
 				}
 				dst := &in.States[tr.Dst]
 				org := hsOrigin(origin, &act)
@@ -1002,7 +1010,7 @@ func walPart(t *testing.T, in *walInput, res *verifkit.Result) {
 				nd2, err := openNode(ww, store)
 				if err != nil {
 					report(ti, walDiff{"restart-fails", map[string]interface{}{"kind": "restart-fails"}, err.Error()}, "after-restart", rp)
-					continue
+					return
 				}
 				o2 := nd2.observe(org)
 				rp2 := *rp
@@ -1014,6 +1022,9 @@ func walPart(t *testing.T, in *walInput, res *verifkit.Result) {
 				for _, d := range ww.compare(o2, dst, &tr.Obs) {
 					report(ti, d, phase, &rp2)
 				}
+			}
+			for _, ti := range out[s] {
+				one(ti)
 			}
 		}()
 	}
@@ -1200,6 +1211,7 @@ func runWalWalks(t *testing.T, in *walInput, res *verifkit.Result) {
 			var problems []string
 			origin := ""
 			for step := 0; step < wk.Len; step++ {
+				flight.begin(fmt.Sprintf("walk:%d", wi))
 				cur := nd.observe(origin)
 				act := randomWalOp(rng, ww, wk.Terms, wk.Batch, cur)
 				crashed, _, err := nd.exec(&act)
@@ -1227,6 +1239,7 @@ func runWalWalks(t *testing.T, in *walInput, res *verifkit.Result) {
 				res.Count(fmt.Sprintf("walk:%d:%d", wi, step))
 			}
 			nd.store.Close()
+			flight.end(fmt.Sprintf("walk:%d", wi))
 			for _, p := range problems {
 				res.Violate(map[string]interface{}{"kind": "malformed-answer", "driver": "walk"}, map[string]interface{}{"walk": wi, "seed": verifkit.Seed()}, "walk %d: %s", wi, p)
 			}
